@@ -1462,6 +1462,7 @@ func runC19(tier, replay string) int {
 			r.Sample(map[string]any{"schedule": sc.Name, "shape": sc.Shape, "events": len(res.Events), "outcomes": res.Outcomes})
 		}
 	}
+	c19PidNamespace(r)
 	r.Extra("zombie_holder_probe(informational: holder killed, not yet reaped; the model accepts both outcomes)", zombie)
 	r.Extra("port_base", base)
 	if perKind["xuid"] > 0 {
